@@ -780,3 +780,393 @@ Lemma T_block_quad Bs : blocks_sq Bs -> forall x, @quad ROps (block_diagR Bs) x 
 Proof. intros H. apply block_diag_quad, blocks_sq_square, H. Qed.
 Lemma T_block_size Bs : blocks_sq Bs -> square_n (total Bs) (block_diagR Bs).
 Proof. intros H. apply block_diag_wfm, blocks_sq_square, H. Qed.
+
+(* ------------------------------------------------------------------ split-cross scheme on prepared rows *)
+Definition halve (e : Rentry) : Rentry := (fst e, if Nat.eqb (fst (fst e)) (snd (fst e)) then snd e / 2 else snd e).
+Notation upd_divR := (@upd_div ROps).
+Notation halveD := (@halve_diag_from ROps).
+
+Lemma upd_div_upd_add (r : list R) d j v :
+  upd_divR (@upd_add ROps r j v) d 2 = @upd_add ROps (upd_divR r d 2) j (if Nat.eqb d j then v / 2 else v).
+Proof.
+  revert d j. induction r as [|a r IH]; intros d j; [destruct d, j; reflexivity|].
+  destruct d as [|d], j as [|j]; cbn [upd_add upd_div Nat.eqb add div ROps]; try reflexivity.
+  - f_equal. lra.
+  - rewrite IH. reflexivity.
+Qed.
+Lemma halve_madd (M : Rmat) : forall s i j v,
+  halveD s (maddR M i j v) = maddR (halveD s M) i j (if Nat.eqb (s + i) j then v / 2 else v).
+Proof.
+  induction M as [|r M IH]; intros s i j v; [destruct i; reflexivity|].
+  destruct i as [|i]; cbn [madd halve_diag_from].
+  - rewrite Nat.add_0_r. unfold two. cbn [ofZ ROps]. rewrite upd_div_upd_add. reflexivity.
+  - rewrite IH. replace (S s + i)%nat with (s + S i)%nat by lia. reflexivity.
+Qed.
+Lemma halve_mscatter (es : list Rentry) : forall M, halveD 0 (mscatterR es M) = mscatterR (map halve es) (halveD 0 M).
+Proof.
+  unfold mscatter. induction es as [|[[i j] v] es IH]; intros M; cbn [fold_left map]; auto.
+  rewrite IH. cbn [fst snd halve]. rewrite halve_madd. reflexivity.
+Qed.
+Lemma upd_div_zeros m d : upd_divR (@zeros ROps m) d 2 = @zeros ROps m.
+Proof.
+  unfold zeros, zero. cbn [ofZ ROps]. revert d. induction m as [|m IH]; intros d; [destruct d; reflexivity|].
+  destruct d as [|d]; cbn [repeat upd_div div ROps].
+  - f_equal. lra.
+  - rewrite IH. reflexivity.
+Qed.
+Lemma halve_mzeros n m s : halveD s (@mzeros ROps n m) = @mzeros ROps n m.
+Proof.
+  unfold mzeros. revert s. induction n as [|n IH]; intros s; cbn [repeat halve_diag_from]; auto.
+  rewrite IH. unfold two. cbn [ofZ ROps]. rewrite upd_div_zeros. reflexivity.
+Qed.
+Lemma split_prepared_build eps w prows :
+  @split_matrix_prepared ROps eps w prows = buildR (length prows / 4) (map halve (@split_entries ROps (eps + eps) w prows)).
+Proof. unfold split_matrix_prepared, build. rewrite halve_mscatter, halve_mzeros. reflexivity. Qed.
+Lemma halve_inr n es : Forall (inr n) es -> Forall (inr n) (map halve es).
+Proof. intros H. apply Forall_forall. intros e He. apply in_map_iff in He. destruct He as [e0 [<- He0]]. rewrite Forall_forall in H. apply (H e0 He0). Qed.
+
+Definition rowF (f : nat -> R) (row : list (nat * R)) : R := sumR (map (fun mw => snd mw * f (fst mw)) row).
+Lemma ES_halve_app es1 es2 f g : ES (map halve (es1 ++ es2)) f g = ES (map halve es1) f g + ES (map halve es2) f g.
+Proof. rewrite map_app. apply ES_app. Qed.
+Lemma ES_halve_flat_map {A} (F : A -> list Rentry) l f g :
+  ES (map halve (flat_map F l)) f g = sumR (map (fun a => ES (map halve (F a)) f g) l).
+Proof. induction l as [|a l IH]; cbn [flat_map map sumR]; [reflexivity|]. rewrite ES_halve_app, IH. reflexivity. Qed.
+
+Lemma ES_split_row rwi row f g : NoDup (map fst row) ->
+  ES (map halve (@split_row_entries ROps rwi row)) f g = rwi * rowF f row * rowF g row.
+Proof.
+  induction row as [|[a wa] t IH]; intros HN; [unfold ES, rowF; cbn; lra|].
+  cbn [map fst] in HN. apply NoDup_cons_iff in HN. destruct HN as [Hna HN].
+  cbn [split_row_entries]. rewrite ES_halve_app, (IH HN). rewrite ES_halve_flat_map. cbn [map sumR].
+  assert (E1 : ES [halve (a, fst (a, wa), @mul ROps (@mul ROps wa (snd (a, wa))) rwi); halve (fst (a, wa), a, @mul ROps (@mul ROps wa (snd (a, wa))) rwi)] f g
+               = rwi * (wa * wa) * f a * g a).
+  { unfold ES, halve. cbn [map sumR fst snd mul ROps]. rewrite Nat.eqb_refl. lra. }
+  assert (E2 : sumR (map (fun a0 : nat * R => ES [halve (a, fst a0, @mul ROps (@mul ROps wa (snd a0)) rwi); halve (fst a0, a, @mul ROps (@mul ROps wa (snd a0)) rwi)] f g) t)
+               = rwi * wa * (f a * rowF g t + g a * rowF f t)).
+  { unfold rowF. rewrite <- !sumR_map_scal, <- sumR_map_add, <- sumR_map_scal. apply sumR_map_ext. intros [b wb] Hb.
+    assert (a <> b) by (intros ->; apply Hna; apply in_map_iff; exists (b, wb); auto).
+    unfold ES, halve. cbn [map sumR fst snd mul ROps].
+    destruct (Nat.eqb_spec a b); [contradiction|]. destruct (Nat.eqb_spec b a); [subst; contradiction|]. lra. }
+  tr.
+  rewrite E1, E2. unfold rowF. cbn [map sumR fst snd]. fold (rowF f t) (rowF g t). lra.
+Qed.
+
+Definition prows_inr (P : nat) (prows : list (list (nat * R))) : Prop :=
+  Forall (fun row => Forall (fun mw => (fst mw < P)%nat) row /\ NoDup (map fst row)) prows.
+Lemma prows_nth P prows k : prows_inr P prows ->
+  Forall (fun mw : nat * R => (fst mw < P)%nat) (nth k prows []) /\ NoDup (map fst (nth k prows [])).
+Proof.
+  intros H. destruct (Nat.ltb_spec k (length prows)) as [Hk|Hk].
+  - unfold prows_inr in H. rewrite Forall_forall in H. apply H, nth_In, Hk.
+  - rewrite nth_overflow by exact Hk. split; constructor.
+Qed.
+Lemma split_row_entries_inr P rwi row : Forall (fun mw : nat * R => (fst mw < P)%nat) row -> Forall (inr P) (@split_row_entries ROps rwi row).
+Proof.
+  induction row as [|[a wa] t IH]; intros HF; [constructor|].
+  pose proof HF as HF0. apply Forall_cons_iff in HF. destruct HF as [Ha HF]. cbn [fst] in Ha.
+  cbn [split_row_entries]. apply Forall_app. split; [|apply IH, HF].
+  apply Forall_forall. intros e He. apply in_flat_map in He. destruct He as [[b wb] [Hb He]].
+  rewrite Forall_forall in HF0. specialize (HF0 _ Hb). cbn [fst snd] in *. destruct He as [<-|[<-|[]]]; split; cbn; auto.
+Qed.
+Lemma split_entries_inr eps2 w prows : prows_inr (length prows / 4) prows ->
+  Forall (inr (length prows / 4)) (@split_entries ROps eps2 w prows).
+Proof.
+  intros H. unfold split_entries. tr. set (P := (length prows / 4)%nat) in *.
+  apply Forall_forall. intros e He. apply in_flat_map in He. destruct He as [i [Hi He]]. apply in_seq in Hi.
+  destruct He as [<-|He]; [split; cbn [fst snd]; lia|].
+  apply in_flat_map in He. destruct He as [j [_ He]].
+  pose proof (split_row_entries_inr P (@nthT ROps (map (@sq ROps) w) i) (nth (i * 4 + j) prows []) (proj1 (prows_nth P prows _ H))) as HF.
+  rewrite Forall_forall in HF. apply HF, He.
+Qed.
+Lemma ES_split eps2 w prows f g : prows_inr (length prows / 4) prows ->
+  ES (map halve (@split_entries ROps eps2 w prows)) f g =
+  sumR (map (fun i => f i * (eps2 / 2) * g i
+                      + sumR (map (fun j => xh w i * xh w i * rowF f (nth (i * 4 + j) prows []) * rowF g (nth (i * 4 + j) prows [])) (seq 0 4)))
+            (seq 0 (length prows / 4))).
+Proof.
+  intros H. unfold split_entries. rewrite ES_halve_flat_map. apply sumR_map_ext. intros i _.
+  cbn [map]. rewrite ES_cons. f_equal.
+  - unfold halve. cbn [fst snd]. rewrite Nat.eqb_refl. reflexivity.
+  - rewrite ES_halve_flat_map. apply sumR_map_ext. intros j _.
+    rewrite ES_split_row by (apply (prows_nth _ _ _ H)). rewrite nthT_map_sq. reflexivity.
+Qed.
+
+Lemma sum_blocks4 (G : nat -> R) P :
+  sumR (map (fun i => sumR (map (fun j => G (i * 4 + j)%nat) (seq 0 4))) (seq 0 P)) = sumR (map G (seq 0 (4 * P))).
+Proof.
+  induction P as [|P IH]; [reflexivity|].
+  rewrite (seq_S P 0), map_app, sumR_app, IH. replace (4 * S P)%nat with (4 * P + 4)%nat by lia.
+  rewrite (seq_app (4 * P) 4 0), map_app, sumR_app. f_equal. cbn [map sumR seq Nat.add].
+  replace (P * 4 + 0)%nat with (4 * P)%nat by lia. replace (P * 4 + 1)%nat with (S (4 * P)) by lia.
+  replace (P * 4 + 2)%nat with (S (S (4 * P))) by lia. replace (P * 4 + 3)%nat with (S (S (S (4 * P)))) by lia. lra.
+Qed.
+Lemma sum_indexed_nth {A} (G : nat -> A -> R) (l : list A) d :
+  sumR (map (fun ka => G (fst ka) (snd ka)) (indexed l)) = sumR (map (fun k => G k (nth k l d)) (seq 0 (length l))).
+Proof.
+  unfold indexed.
+  assert (X : forall s, sumR (map (fun ka => G (fst ka) (snd ka)) (combine (seq s (length l)) l))
+                        = sumR (map (fun k => G k (nth (k - s) l d)) (seq s (length l)))).
+  { induction l as [|a l IH]; intros s; cbn [length seq combine map sumR fst snd]; auto.
+    replace (s - s)%nat with 0%nat by lia. cbn [nth]. f_equal. rewrite IH. apply sumR_map_ext. intros k Hk. apply in_seq in Hk.
+    replace (k - s)%nat with (S (k - S s)) by lia. reflexivity. }
+  rewrite X. apply sumR_map_ext. intros k _. rewrite Nat.sub_0_r. reflexivity.
+Qed.
+Lemma row_dot_R x row : @row_dot ROps x row = rowF (xh x) row.
+Proof. unfold row_dot, rowF. rewrite sumT_sumR. reflexivity. Qed.
+
+Lemma split_prepared_quadratic eps w prows x : length prows = (4 * (length prows / 4))%nat -> prows_inr (length prows / 4) prows ->
+  length x = (length prows / 4)%nat ->
+  @quad ROps (@split_matrix_prepared ROps eps w prows) x = @qf_split_prepared ROps eps w prows x.
+Proof.
+  intros H4 HP HX. rewrite split_prepared_build. set (P := (length prows / 4)%nat) in *.
+  rewrite quad_build by (apply halve_inr, split_entries_inr, HP). rewrite ES_split by exact HP. fold P.
+  rewrite sumR_map_add.
+  assert (E0 : sumR (map (fun i => sumR (map (fun j => xh w i * xh w i * rowF (xh x) (nth (i * 4 + j) prows []) * rowF (xh x) (nth (i * 4 + j) prows [])) (seq 0 4))) (seq 0 P))
+               = sumR (map (fun k => xh w (k / 4) * xh w (k / 4) * rowF (xh x) (nth k prows []) * rowF (xh x) (nth k prows [])) (seq 0 (4 * P)))).
+  { rewrite <- (sum_blocks4 (fun k => xh w (k / 4) * xh w (k / 4) * rowF (xh x) (nth k prows []) * rowF (xh x) (nth k prows [])) P).
+    apply sumR_map_ext. intros i _. apply sumR_map_ext. intros j Hj. apply in_seq in Hj.
+    replace ((i * 4 + j) / 4)%nat with i; [reflexivity|]. rewrite Nat.div_add_l by lia. rewrite (Nat.div_small j 4) by lia. lia. }
+  tr. rewrite E0.
+  unfold qf_split_prepared. rewrite sumT_sumR. cbn [add mul ROps].
+  assert (E1 : sumR (map (fun i => xh x i * ((eps + eps) / 2) * xh x i) (seq 0 P)) = eps * @norm2 ROps x).
+  { rewrite <- (norm2_seq x P HX), <- sumR_map_scal. apply sumR_map_ext. intros; lra. }
+  match goal with |- _ = ?c + _ =>
+    assert (EC : c = sumR (map (fun k => xh w (k / 4) * xh w (k / 4) * rowF (xh x) (nth k prows []) * rowF (xh x) (nth k prows [])) (seq 0 (4 * P)))) end.
+  { etransitivity; [apply (sum_indexed_nth (fun k row => @nthT ROps (map (@sq ROps) w) (k / 4) * @sq ROps (@row_dot ROps x row)) prows [])|].
+    tr. rewrite H4. fold P.
+    apply sumR_map_ext. intros k _. rewrite nthT_map_sq, row_dot_R. unfold sq. cbn [mul ROps]. lra. }
+  tr. rewrite EC, E1. lra.
+Qed.
+Lemma split_prepared_symmetric eps w prows : prows_inr (length prows / 4) prows -> forall a b,
+  (a < length prows / 4)%nat -> (b < length prows / 4)%nat ->
+  @mget ROps (@split_matrix_prepared ROps eps w prows) a b = @mget ROps (@split_matrix_prepared ROps eps w prows) b a.
+Proof.
+  intros HP. rewrite split_prepared_build. apply build_symmetric; [apply halve_inr, split_entries_inr, HP|].
+  intros f g. rewrite !ES_split by exact HP. apply sumR_map_ext. intros i _. f_equal; [lra|].
+  apply sumR_map_ext. intros j _. lra.
+Qed.
+Lemma qf_split_prepared_lower eps w prows x : eps * @norm2 ROps x <= @qf_split_prepared ROps eps w prows x.
+Proof.
+  unfold qf_split_prepared. rewrite sumT_sumR. cbn [add mul ROps].
+  match goal with |- _ <= ?c + _ => assert (0 <= c) end.
+  { apply sumR_map_nonneg. intros [k row]. cbn [fst snd]. rewrite nthT_map_sq. unfold sq. cbn [mul ROps].
+    apply Rmult_le_pos; apply Rle_0_sqr. }
+  tr. lra.
+Qed.
+Lemma nodupb_NoDup l : nodupb l = true -> NoDup l.
+Proof.
+  induction l as [|a l IH]; intros H; [constructor|]. cbn [nodupb] in H. apply andb_true_iff in H. destruct H as [H1 H2].
+  constructor; [|apply IH, H2]. intros Hin. apply negb_true_iff in H1.
+  assert (existsb (Nat.eqb a) l = true) by (apply existsb_exists; exists a; split; [exact Hin | apply Nat.eqb_refl]). congruence.
+Qed.
+Lemma prows_ok_split (prows : list (list (nat * R))) : prows_ok prows = true ->
+  length prows = (4 * (length prows / 4))%nat /\ prows_inr (length prows / 4) prows.
+Proof.
+  unfold prows_ok. intros H. apply andb_true_iff in H. destruct H as [H1 H2]. apply Nat.eqb_eq in H1. split; [exact H1|].
+  rewrite forallb_forall in H2. apply Forall_forall. intros row Hr. specialize (H2 row Hr). apply andb_true_iff in H2. destruct H2 as [H2 H3].
+  split; [|apply nodupb_NoDup, H3]. rewrite forallb_forall in H2. apply Forall_forall. intros mw Hm. apply Nat.ltb_lt, H2, Hm.
+Qed.
+Lemma T_split_size eps w prows : square_n (length prows / 4) (@split_matrix_prepared ROps eps w prows).
+Proof. rewrite split_prepared_build. apply build_wfm. Qed.
+Lemma T_split_qf eps w prows x : prows_ok prows = true -> length x = (length prows / 4)%nat ->
+  @quad ROps (@split_matrix_prepared ROps eps w prows) x = @qf_split_prepared ROps eps w prows x.
+Proof. intros H HX. apply prows_ok_split in H. destruct H. apply split_prepared_quadratic; auto. Qed.
+Lemma T_split_sym eps w prows : prows_ok prows = true -> symmetric_n (length prows / 4) (@split_matrix_prepared ROps eps w prows).
+Proof. intros H. apply prows_ok_split in H. destruct H. unfold symmetric_n. apply split_prepared_symmetric; auto. Qed.
+Lemma T_split_pd eps w prows x : 0 < eps -> prows_ok prows = true -> length x = (length prows / 4)%nat -> nonzero x ->
+  0 < @quad ROps (@split_matrix_prepared ROps eps w prows) x.
+Proof.
+  intros He H HX Hx. rewrite T_split_qf by auto. pose proof (qf_split_prepared_lower eps w prows x). pose proof (norm2_pos x Hx).
+  pose proof (Rmult_lt_0_compat _ _ He H1). lra.
+Qed.
+Lemma qf_split_prepared_meaning eps w prows x :
+  @qf_split_prepared ROps eps w prows x =
+  sumR (map (fun kr => nth (fst kr / 4) w 0 * nth (fst kr / 4) w 0
+                       * (sumR (map (fun mw => snd mw * nth (fst mw) x 0) (snd kr)) * sumR (map (fun mw => snd mw * nth (fst mw) x 0) (snd kr))))
+            (indexed prows))
+  + eps * sumR (map (fun v => v * v) x).
+Proof.
+  unfold qf_split_prepared. rewrite sumT_sumR, norm2_R. cbn [add mul ROps]. f_equal.
+  apply sumR_map_ext. intros [k row] _. cbn [fst snd]. rewrite nthT_map_sq, row_dot_R. reflexivity.
+Qed.
+
+(* ------------------------------------------------------------------ reg_split_from, one row *)
+Lemma nth_firstn_lt {A} (l : list A) n j d : (j < n)%nat -> nth j (firstn n l) d = nth j l d.
+Proof.
+  revert n j. induction l as [|a l IH]; intros n j H; [rewrite firstn_nil; reflexivity|].
+  destruct n as [|n]; [lia|]. destruct j as [|j]; cbn [firstn nth]; auto. apply IH. lia.
+Qed.
+Lemma nth_map_opp (w : list R) j : nth j (map Ropp w) 0 = - nth j w 0.
+Proof. revert j. induction w as [|a w IH]; intros [|j]; cbn [map nth]; try lra. apply IH. Qed.
+Lemma firstn_upd_set {A} (l : list A) n v : (n < length l)%nat -> firstn (S n) (upd_set l n v) = firstn n l ++ [v].
+Proof.
+  revert n. induction l as [|a l IH]; intros n H; cbn [length] in H; [lia|].
+  destruct n as [|n]; cbn [upd_set firstn app]; [reflexivity|]. f_equal. apply IH. lia.
+Qed.
+Lemma all_some_map {A B} (f : A -> option B) (g : A -> B) l : (forall a, In a l -> f a = Some (g a)) ->
+  all_some (map f l) = Some (map g l).
+Proof.
+  induction l as [|a l IH]; intros H; [reflexivity|]. cbn [map all_some]. rewrite (H a) by (left; reflexivity).
+  rewrite IH by (intros; apply H; right; assumption). reflexivity.
+Qed.
+Lemma pyidx_inr P z : (0 <= z < Z.of_nat P)%Z -> pyidx P z = Some (Z.to_nat z).
+Proof.
+  intros H. unfold pyidx. destruct (Z.leb_spec 0 z); [|lia]. destruct (Z.ltb_spec z (Z.of_nat P)); [|lia]. reflexivity.
+Qed.
+Lemma sum_seq_list {A} (G : A -> R) (l : list A) d n : length l = n ->
+  sumR (map (fun j => G (nth j l d)) (seq 0 n)) = sumR (map G l).
+Proof.
+  intros <-. assert (X : forall s, sumR (map (fun j => G (nth (j - s) l d)) (seq s (length l))) = sumR (map G l)).
+  { induction l as [|a l IH]; intros s; cbn [length seq map sumR]; auto. replace (s - s)%nat with 0%nat by lia. cbn [nth]. f_equal.
+    rewrite <- (IH (S s)). apply sumR_map_ext. intros j Hj. apply in_seq in Hj. replace (j - s)%nat with (S (j - S s)) by lia. reflexivity. }
+  rewrite <- (X 0%nat). apply sumR_map_ext. intros j _. rewrite Nat.sub_0_r. reflexivity.
+Qed.
+Lemma rowF_combine_nth f (idx : list nat) (wts : list R) n : length idx = n -> length wts = n ->
+  rowF f (combine idx wts) = sumR (map (fun j => nth j wts 0 * f (nth j idx 0%nat)) (seq 0 n)).
+Proof.
+  revert idx wts. induction n as [|n IH]; intros idx wts H1 H2.
+  - destruct idx; [reflexivity|discriminate].
+  - destruct idx as [|a idx], wts as [|b wts]; try discriminate. cbn [combine]. unfold rowF. cbn [map sumR fst snd seq nth].
+    f_equal. fold (rowF f (combine idx wts)). rewrite (IH idx wts) by (cbn in *; lia).
+    rewrite <- seq_shift, map_map. reflexivity.
+Qed.
+
+Section RegSplitRow.
+  Variables (mp : list Z) (w : list R) (pix : Z).
+  Let step := fun (st : list R * bool) (j : nat) =>
+    if (nth j mp (-1) =? pix)%Z then (@upd_add ROps (fst st) j 1, true) else st.
+  Let stn (n : nat) := fold_left step (seq 0 n) (map Ropp w, false).
+  Let hit (j : nat) : bool := (nth j mp (-1) =? pix)%Z.
+
+  Lemma fold_char n : (n <= length w)%nat ->
+    length (fst (stn n)) = length w
+    /\ (forall j, nth j (fst (stn n)) 0 = - nth j w 0 + (if (j <? n)%nat && hit j then 1 else 0))
+    /\ snd (stn n) = existsb hit (seq 0 n).
+  Proof.
+    induction n as [|n IH]; intros Hn.
+    - unfold stn. cbn [seq fold_left fst snd existsb]. rewrite map_length. split; [reflexivity|]. split; [|reflexivity].
+      intros j. rewrite nth_map_opp. cbn. lra.
+    - destruct (IH ltac:(lia)) as [IL [IN IF]].
+      unfold stn in *. rewrite seq_S, fold_left_app. cbn [fold_left Nat.add].
+      set (s := fold_left step (seq 0 n) (map Ropp w, false)) in *.
+      rewrite existsb_app. cbn [existsb]. rewrite orb_false_r.
+      unfold step at 1 2 3. fold (hit n). destruct (hit n) eqn:Eh; cbn [fst snd].
+      + split; [rewrite (@upd_add_length ROps); exact IL|]. split.
+        * intros j. rewrite nth_upd_add by lia. rewrite IN.
+          destruct (Nat.eqb_spec n j) as [->|Hne].
+          -- rewrite Eh. destruct (Nat.ltb_spec j j); [lia|]. destruct (Nat.ltb_spec j (S j)); [|lia]. cbn. lra.
+          -- destruct (Nat.ltb_spec j n), (Nat.ltb_spec j (S n)); try lia; cbn [andb]; lra.
+        * rewrite orb_true_r. reflexivity.
+      + split; [exact IL|]. split.
+        * intros j. rewrite IN. destruct (Nat.ltb_spec j n), (Nat.ltb_spec j (S n)); try lia; cbn [andb]; try lra.
+          assert (j = n) by lia. subst. rewrite Eh. lra.
+        * rewrite orb_false_r. exact IF.
+  Qed.
+End RegSplitRow.
+
+Lemma combine_app_eq {A B} (l1 l2 : list A) (m1 m2 : list B) : length l1 = length m1 ->
+  combine (l1 ++ l2) (m1 ++ m2) = combine l1 m1 ++ combine l2 m2.
+Proof.
+  revert m1. induction l1 as [|a l1 IH]; intros [|b m1] H; cbn in H; try discriminate; cbn [app combine]; auto.
+  f_equal. apply IH. lia.
+Qed.
+Lemma rowF_app f r1 r2 : rowF f (r1 ++ r2) = rowF f r1 + rowF f r2.
+Proof. unfold rowF. rewrite map_app, sumR_app. reflexivity. Qed.
+Lemma existsb_eq_iff {A B} (f : A -> bool) (g : B -> bool) l m :
+  ((exists a, In a l /\ f a = true) <-> (exists b, In b m /\ g b = true)) -> existsb f l = existsb g m.
+Proof.
+  intros H. destruct (existsb f l) eqn:E1, (existsb g m) eqn:E2; auto.
+  - apply existsb_exists in E1. apply H in E1. apply existsb_exists in E1. congruence.
+  - apply existsb_exists in E2. apply H in E2. apply existsb_exists in E2. congruence.
+Qed.
+
+Lemma reg_split_row_spec P max_j q mp size (w : list R) : split_row_ok P max_j (mp, size, w) = true -> (q < P)%nat ->
+  exists r' prow', @reg_split_row ROps (Z.of_nat q) max_j (mp, size, w) = Ok r' /\ @prep_split_row ROps P r' = Some prow'
+    /\ Forall (fun mw : nat * R => (fst mw < P)%nat) prow' /\ NoDup (map fst prow')
+    /\ forall f, rowF f prow' = f q - rowF f (prow0 (mp, size, w)).
+Proof.
+  intros Hok Hq. unfold split_row_ok in Hok.
+  repeat (apply andb_true_iff in Hok; destruct Hok as [Hok ?]).
+  rename H into Hnd, H0 into Hrg, H1 into Hlen, H2 into Hmax, H3 into Hsz. apply Nat.leb_le in Hok, Hsz.
+  apply Nat.ltb_lt in Hmax. apply Nat.eqb_eq in Hlen. apply nodupb_NoDup in Hnd. rewrite forallb_forall in Hrg.
+  set (pix := Z.of_nat q) in *. set (idx := map Z.to_nat (firstn size mp)) in *.
+  assert (Lf : length (firstn size mp) = size) by (apply firstn_length_le; lia).
+  assert (Li : length idx = size) by (unfold idx; rewrite map_length; exact Lf).
+  assert (Rg : forall z, In z (firstn size mp) -> (0 <= z < Z.of_nat P)%Z).
+  { intros z Hz. specialize (Hrg z Hz). apply andb_true_iff in Hrg. destruct Hrg as [A B]. apply Z.leb_le in A. apply Z.ltb_lt in B. lia. }
+  assert (Ij : forall j, (j < size)%nat -> nth j idx 0%nat = Z.to_nat (nth j mp (-1)%Z) /\ (0 <= nth j mp (-1) < Z.of_nat P)%Z).
+  { intros j Hj. unfold idx. change 0%nat with (Z.to_nat (-1)). rewrite map_nth, nth_firstn_lt by exact Hj. split; [reflexivity|].
+    apply Rg. rewrite <- (nth_firstn_lt mp size j (-1)%Z Hj). apply nth_In. lia. }
+  assert (Iidx : Forall (fun m => (m < P)%nat) idx).
+  { apply Forall_forall. intros m Hm. unfold idx in Hm. apply in_map_iff in Hm. destruct Hm as [z [<- Hz]]. specialize (Rg z Hz). lia. }
+  destruct (fold_char mp w pix size ltac:(lia)) as [FL [FN FF]].
+  match type of FF with snd ?s = _ => set (st := s) in * end.
+  (* the indicator sum *)
+  assert (HitQ : forall j, (j < size)%nat -> (nth j mp (-1) =? pix)%Z = Nat.eqb (nth j idx 0%nat) q).
+  { intros j Hj. destruct (Ij j Hj) as [E R]. rewrite E. unfold pix.
+    destruct (Z.eqb_spec (nth j mp (-1)%Z) (Z.of_nat q)) as [->|N]; [rewrite Nat2Z.id, Nat.eqb_refl; reflexivity|].
+    symmetry. apply Nat.eqb_neq. intros C. apply N. rewrite <- C, Z2Nat.id by lia. reflexivity. }
+  assert (FlagQ : snd st = existsb (fun m => Nat.eqb m q) idx).
+  { rewrite FF. apply existsb_eq_iff. split.
+    - intros [j [Hj Hh]]. apply in_seq in Hj. rewrite HitQ in Hh by lia. exists (nth j idx 0%nat). split; [apply nth_In; lia|exact Hh].
+    - intros [m [Hm Hh]]. destruct (In_nth idx m 0%nat Hm) as [j [Hj E]]. exists j. split; [apply in_seq; lia|].
+      rewrite HitQ by lia. rewrite E. exact Hh. }
+  assert (IndSum : forall f, sumR (map (fun j => (if (j <? size)%nat && (nth j mp (-1) =? pix)%Z then 1 else 0) * f (nth j idx 0%nat)) (seq 0 size))
+                             = if snd st then f q else 0).
+  { intros f. rewrite FlagQ.
+    rewrite <- (sumR_indicator Nat.eqb f q idx Nat.eqb_eq Hnd).
+    rewrite <- (sum_seq_list (fun s => if Nat.eqb s q then f s else 0) idx 0%nat size Li).
+    apply sumR_map_ext. intros j Hj. apply in_seq in Hj. destruct (Nat.ltb_spec j size); [|lia]. cbn [andb].
+    rewrite HitQ by lia. destruct (Nat.eqb (nth j idx 0%nat) q); lra. }
+  (* the weighted sum over the first [size] entries of the updated weights *)
+  assert (Pref : forall f (W : list R), (forall j, (j < size)%nat -> nth j W 0 = nth j (fst st) 0) -> (size <= length W)%nat ->
+                 rowF f (combine idx (firstn size W)) = (if snd st then f q else 0) - rowF f (prow0 (mp, size, w))).
+  { intros f W HW HLW. unfold prow0. fold idx.
+    rewrite (rowF_combine_nth f idx (firstn size W) size Li) by (apply firstn_length_le; exact HLW).
+    rewrite (rowF_combine_nth f idx (firstn size w) size Li) by (apply firstn_length_le; lia).
+    rewrite <- IndSum, <- sumR_map_sub. apply sumR_map_ext. intros j Hj. apply in_seq in Hj.
+    rewrite !nth_firstn_lt by lia. rewrite HW, FN by lia. lra. }
+  unfold reg_split_row. cbn [opp ROps]. unfold one. cbn [ofZ ROps]. fold pix.
+  change (fold_left _ (seq 0 size) _) with st.
+  destruct (Nat.eqb_spec size 0); [lia|]. destruct (Nat.ltb_spec max_j size); [lia|].
+  assert (PI : all_some (map (pyidx P) (firstn size mp)) = Some idx).
+  { apply all_some_map. intros z Hz. apply pyidx_inr, Rg, Hz. }
+  tr. destruct (snd st) eqn:Eflag.
+  - (* own pixel already among the vertices *)
+    exists (mp, size, fst st), (combine idx (firstn size (fst st))). split; [reflexivity|]. split.
+    { unfold prep_split_row, prep_row. tr. destruct (Nat.ltb_spec (length (fst st)) size); [lia|].
+      destruct (Nat.ltb_spec (length mp) size); [lia|]. rewrite PI. reflexivity. }
+    split; [|split].
+    + apply Forall_forall. intros [m v] Hm. apply in_combine_l in Hm. rewrite Forall_forall in Iidx. apply (Iidx m Hm).
+    + assert (E : map fst (combine idx (firstn size (fst st))) = idx).
+      { clear -Li FL Hsz Hmax. assert (L2 : length (firstn size (fst st)) = size) by (apply firstn_length_le; lia).
+        revert L2 Li. generalize (firstn size (fst st)) as W. generalize size. induction idx as [|a l IH]; intros s W L2 Li'; destruct W; cbn in *; try lia; auto.
+        f_equal. apply (IH (pred s)); lia. }
+      rewrite E. exact Hnd.
+    + intros f. rewrite (Pref f (fst st)) by (auto; lia). reflexivity.
+  - (* own pixel appended at position [size] *)
+    exists (upd_set mp size pix, S size, upd_set (fst st) size 1), (combine idx (firstn size (fst st)) ++ [(q, 1)]).
+    split; [reflexivity|]. split.
+    { unfold prep_split_row, prep_row. tr. rewrite !upd_set_length.
+      destruct (Nat.ltb_spec (length (fst st)) (S size)); [lia|]. destruct (Nat.ltb_spec (length mp) (S size)); [lia|].
+      rewrite !firstn_upd_set by lia.
+      rewrite (all_some_map (pyidx P) Z.to_nat).
+      - rewrite map_app. cbn [map]. fold idx. unfold pix. rewrite Nat2Z.id.
+        rewrite combine_app_eq by (rewrite Li; symmetry; apply firstn_length_le; lia). reflexivity.
+      - intros z Hz. apply in_app_or in Hz. destruct Hz as [Hz|[<-|[]]]; [apply pyidx_inr, Rg, Hz|]. apply pyidx_inr. unfold pix. lia. }
+    assert (E : map fst (combine idx (firstn size (fst st))) = idx).
+    { clear -Li FL Hsz Hmax. assert (L2 : length (firstn size (fst st)) = size) by (apply firstn_length_le; lia).
+      revert L2 Li. generalize (firstn size (fst st)) as W. generalize size. induction idx as [|a l IH]; intros s W L2 Li'; destruct W; cbn in *; try lia; auto.
+      f_equal. apply (IH (pred s)); lia. }
+    split; [|split].
+    + apply Forall_app. split; [|constructor; [exact Hq|constructor]].
+      apply Forall_forall. intros [m v] Hm. apply in_combine_l in Hm. rewrite Forall_forall in Iidx. apply (Iidx m Hm).
+    + rewrite map_app, E. cbn [map fst]. 
+      assert (Hnq : ~ In q idx).
+      { intros Hin. rewrite FlagQ in Eflag. assert (existsb (fun m => Nat.eqb m q) idx = true) by (apply existsb_exists; exists q; split; [exact Hin|apply Nat.eqb_refl]). congruence. }
+      clear -Hnd Hnq. induction idx as [|a l IH]; cbn [app]; [constructor; [intros []|constructor]|].
+      apply NoDup_cons_iff in Hnd. destruct Hnd as [Ha Hl]. constructor.
+      * intros Hin. apply in_app_or in Hin. destruct Hin as [Hin|[<-|[]]]; [contradiction|]. apply Hnq. left. reflexivity.
+      * apply IH; auto. intros Hin. apply Hnq. right. exact Hin.
+    + intros f. rewrite rowF_app, (Pref f (fst st)) by (auto; lia). unfold rowF. cbn [map sumR fst snd]. lra.
+Qed.
